@@ -1,6 +1,7 @@
 import QmiModel.Lemmas.C18Responder
 import QmiModel.Lemmas.C18Utf8
 import QmiModel.Lemmas.C18Admit
+import QmiModel.Lemmas.C18Window
 /-! Helper lemmas for C18: a request built by `create`, and one node's answer as the asker receives it. -/
 namespace QmiModel.Discovery
 
